@@ -51,6 +51,12 @@ def run(prog, res):
   for q in ('lattice_lib.project_by_dykstra', 'lattice_lib._approximately_project_trapezoid'):
     hashkeys.check_function(prog, res, prog.function(q))
   res.floor('T4', 8)
+  from ..rules import siblings
+  siblings.selfcheck()
+  for g in prog.all_functions():
+    if g.parent is None and g.module.name == 'lattice_lib':
+      siblings.check_function(prog, res, g)
+  res.floor('CP1', 10)
   from ..rules import seqkind
   seqkind.selfcheck()
   for q in ('lattice_lib.finalize_constraints', 'lattice_lib.project_by_dykstra'):
